@@ -3,7 +3,8 @@
 From Coq Require Import List String Bool ZArith.
 From Helm Require Import Common.Assoc Engine.Types Engine.Eff Engine.Ops Engine.Cluster Engine.Seq
                          Engine.DryRun Engine.Ownership Engine.OwnershipProofs Engine.OwnershipCalls
-                         Engine.OwnershipConfine Engine.OwnershipStamped Engine.OwnershipLookup.
+                         Engine.OwnershipConfine Engine.OwnershipStamped Engine.OwnershipLookup
+                         Engine.MatchDefs Engine.Stamp Engine.StampProofs Engine.StampWorld.
 Import ListNotations.
 Local Open Scope string_scope.
 
@@ -124,6 +125,180 @@ Theorem C07_stamped_owned :
                       end) (op_prog rn ns o).
 Proof. exact ops_payload_owned. Qed.
 Print Assumptions C07_stamped_owned.
+
+(* ---- stamping, inside the model: setMetadataVisitor / mergeLabels / mergeAnnotations /
+        mergeStrStrMaps / checkOwnership / requireValue of validate.go (Engine/Stamp.v) on the label
+        map and the annotation map of an object ---- *)
+
+(* For ALL objects — whatever labels and annotations the chart rendered, conflicting values for
+   the three ownership keys included: after stamping the managed-by label is exactly "Helm" and
+   the release-name / release-namespace annotations are exactly this release's *)
+Theorem C07_stamp_forces_values :
+  forall (rn ns : string) (o : meta),
+    aget app_managed_by_label (m_labels (stamp_meta rn ns o)) = Some app_managed_by_helm /\
+    aget helm_release_name_annotation (m_annots (stamp_meta rn ns o)) = Some rn /\
+    aget helm_release_namespace_annotation (m_annots (stamp_meta rn ns o)) = Some ns.
+Proof. exact stamp_meta_values. Qed.
+Print Assumptions C07_stamp_forces_values.
+
+(* every other label / annotation the chart rendered is preserved unchanged (the maps are Go
+   maps: no key twice) *)
+Theorem C07_stamp_preserves_labels :
+  forall (rn ns : string) (o : meta) (k : string),
+    NoDup (akeys (m_labels o)) -> k <> app_managed_by_label ->
+    aget k (m_labels (stamp_meta rn ns o)) = aget k (m_labels o).
+Proof. exact stamp_meta_preserves_labels. Qed.
+Print Assumptions C07_stamp_preserves_labels.
+
+Theorem C07_stamp_preserves_annotations :
+  forall (rn ns : string) (o : meta) (k : string),
+    NoDup (akeys (m_annots o)) ->
+    k <> helm_release_name_annotation -> k <> helm_release_namespace_annotation ->
+    aget k (m_annots (stamp_meta rn ns o)) = aget k (m_annots o).
+Proof. exact stamp_meta_preserves_annots. Qed.
+Print Assumptions C07_stamp_preserves_annotations.
+
+(* stamping is idempotent, for every object, as an equation between the maps *)
+Theorem C07_stamp_idempotent :
+  forall (rn ns : string) (o : meta), stamp_meta rn ns (stamp_meta rn ns o) = stamp_meta rn ns o.
+Proof. exact stamp_meta_idempotent. Qed.
+Print Assumptions C07_stamp_idempotent.
+
+(* the stamped object passes checkOwnership for this release and fails it for every other
+   (name, namespace) *)
+Theorem C07_stamp_then_check :
+  forall (rn ns : string) (o : meta),
+    check_ownership (stamp_meta rn ns o) rn ns = [] /\
+    (forall rn' ns', owned_meta (stamp_meta rn ns o) rn' ns' = true <-> rn' = rn /\ ns' = ns).
+Proof. exact stamp_then_check. Qed.
+Print Assumptions C07_stamp_then_check.
+
+(* the visitor as the code has it, forcing or not: it fails exactly when force is off and
+   checkOwnership fails; whenever it succeeds the object is owned by exactly this release *)
+Theorem C07_set_metadata_visitor :
+  forall (rn ns : string) (force : bool) (o : meta),
+    (set_metadata_visitor rn ns force o = None <-> force = false /\ owned_meta o rn ns = false) /\
+    (forall o', set_metadata_visitor rn ns force o = Some o' ->
+       o' = stamp_meta rn ns o /\ check_ownership o' rn ns = [] /\
+       (forall rn' ns', owned_meta o' rn' ns' = true <-> rn' = rn /\ ns' = ns)).
+Proof. exact set_metadata_visitor_spec. Qed.
+Print Assumptions C07_set_metadata_visitor.
+
+(* The operations of Engine/Ops.v (and every theorem above about them) stamp with [stamp_fields]
+   and check with [owned_by] on the flat field map.  Those ARE the transcription of validate.go:
+   look-up by look-up [stamp_fields] equals setMetadataVisitor applied to the object's label and
+   annotation maps with everything else untouched, and [owned_by] equals checkOwnership. *)
+Theorem C07_stamp_fields_is_validate_go :
+  forall (rn ns : string) (f : fields) (key : string),
+    NoDup (akeys f) -> aget key (stamp_fields rn ns f) = aget key (stamp_fields_v rn ns f).
+Proof. exact stamp_fields_is_validate_go. Qed.
+Print Assumptions C07_stamp_fields_is_validate_go.
+
+Theorem C07_owned_by_is_check_ownership :
+  forall (f : fields) (rn ns : string), owned_meta (meta_of f) rn ns = owned_by rn ns f.
+Proof. exact owned_meta_owned_by. Qed.
+Print Assumptions C07_owned_by_is_check_ownership.
+
+(* hence for every resource: forced values, preservation, idempotence, exclusivity *)
+Theorem C07_stamp_fields_spec :
+  forall (rn ns : string) (f : fields),
+    (aget managed_by_key (stamp_fields rn ns f) = Some "Helm" /\
+     aget rel_name_key (stamp_fields rn ns f) = Some rn /\
+     aget rel_ns_key (stamp_fields rn ns f) = Some ns) /\
+    (forall key, key <> managed_by_key -> key <> rel_name_key -> key <> rel_ns_key ->
+                 aget key (stamp_fields rn ns f) = aget key f) /\
+    stamp_fields rn ns (stamp_fields rn ns f) = stamp_fields rn ns f /\
+    (forall rn' ns', owned_by rn' ns' (stamp_fields rn ns f) = true <-> rn' = rn /\ ns' = ns).
+Proof. exact stamp_fields_spec. Qed.
+Print Assumptions C07_stamp_fields_spec.
+
+(* what the main create / update of an operation leave in the store: every object Client.Create
+   creates from a stamped manifest, and every object Client.Update creates or patches towards a
+   stamped manifest (resources with duplicate-free field maps), is owned by exactly (rn, ns) when
+   the call returns.  With C07_stamped (every main KCreate / KUpdate of every operation carries
+   [map (stamp rn ns) m]) this covers every manifest write of install / upgrade / rollback. *)
+Theorem C07_created_objects_owned :
+  forall (rn ns : string) (m : list res) (k : kstate) (key : string),
+    In (VCreate, key) (snd (k_create k (map (stamp rn ns) m) true [])) ->
+    exists f, aget key (objs (fst (fst (k_create k (map (stamp rn ns) m) true [])))) = Some f /\
+              owned_by rn ns f = true /\
+              (forall rn' ns', owned_by rn' ns' f = true -> rn' = rn /\ ns' = ns).
+Proof. exact create_leaves_owned. Qed.
+Print Assumptions C07_created_objects_owned.
+
+Theorem C07_updated_objects_owned :
+  forall (rn ns : string) (m : list res) (k : kstate) (cur : list res) (key : string),
+    Forall (fun r => NoDup (akeys (r_fields r))) m ->
+    In (VCreate, key) (snd (k_update k cur (map (stamp rn ns) m))) \/
+    In (VPatch, key) (snd (k_update k cur (map (stamp rn ns) m))) ->
+    exists f, aget key (objs (fst (fst (k_update k cur (map (stamp rn ns) m))))) = Some f /\
+              owned_by rn ns f = true /\
+              (forall rn' ns', owned_by rn' ns' f = true -> rn' = rn /\ ns' = ns).
+Proof. exact update_leaves_owned. Qed.
+Print Assumptions C07_updated_objects_owned.
+
+(* ... and a later ownership look-up: an object stamped by (rn, ns) at the key of a manifest
+   resource makes the install of every OTHER release — another name, or the same name in
+   another namespace — end in the conflict error before any mutation; the look-up of (rn, ns)
+   itself returns the resource among those it may adopt *)
+Theorem C07_stamped_object_refuses_other_release :
+  forall (rn ns : string) (f : fields) (rn' ns' : string) (fl : flags) (cid vid : nat)
+         (mani : list res) (hks : list hook) (sf : sfaults) (cf : cfaults) (w : world) (r : res),
+    (rn', ns') <> (rn, ns) ->
+    In r mani -> aget (rkey r) (w_objs w) = Some (stamp_fields rn ns f) ->
+    f_take_ownership fl = false -> f_client_only fl = false ->
+    (snd (fst (run_store_op rn' ns' (mkOp (OpInstall fl cid vid mani hks) sf cf) w)) = OErr EConflict \/
+     (snd (fst (run_store_op rn' ns' (mkOp (OpInstall fl cid vid mani hks) sf cf) w)) = OErr ENameInUse /\
+      f_dry_run fl = false /\
+      match max_rev_of (w_led w) with
+      | None => true
+      | Some last => f_replace fl && (status_eqb (st last) SUninstalled || status_eqb (st last) SFailed)
+      end = false)) /\
+    snd (run_store_op rn' ns' (mkOp (OpInstall fl cid vid mani hks) sf cf) w) = [] /\
+    fst (fst (run_store_op rn' ns' (mkOp (OpInstall fl cid vid mani hks) sf cf) w)) = w.
+Proof. exact stamped_object_refuses_other_release. Qed.
+Print Assumptions C07_stamped_object_refuses_other_release.
+
+Theorem C07_stamped_object_recognised :
+  forall (rn ns : string) (f : fields) (k : kstate) (r : res) (rs : list res),
+    kfault k = None -> In r rs -> aget (rkey r) (objs k) = Some (stamp_fields rn ns f) ->
+    (forall x, In x rs -> match aget (rkey x) (objs k) with
+                          | Some live => owned_by rn ns live = true
+                          | None => True
+                          end) ->
+    exists l, snd (k_existing rn ns k rs false []) = Some l /\ In r l.
+Proof. exact stamped_object_recognised. Qed.
+Print Assumptions C07_stamped_object_recognised.
+
+(* non-vacuity: the hypotheses (duplicate-free maps) hold of a chart object that renders foreign
+   values for all three keys; the run: "rel" installs it, the stored object carries rel's values
+   and the chart's other label, "other" and "rel"-in-"elsewhere" are refused on it, "rel" upgrades *)
+Example C07_stamp_example :
+  let o := mkMeta [("app.kubernetes.io/name", "keep"); (app_managed_by_label, "kustomize")]
+                  [(helm_release_name_annotation, "old"); ("example.com/note", "keep me");
+                   (helm_release_namespace_annotation, "")] in
+  NoDup (akeys (m_labels o)) /\ NoDup (akeys (m_annots o)) /\
+  stamp_meta "rel" "default" o =
+    mkMeta [("app.kubernetes.io/name", "keep"); (app_managed_by_label, "Helm")]
+           [(helm_release_name_annotation, "rel"); ("example.com/note", "keep me");
+            (helm_release_namespace_annotation, "default")] /\
+  set_metadata_visitor "rel" "default" false o = None /\
+  set_metadata_visitor "rel" "default" false (stamp_meta "rel" "default" o) = Some (stamp_meta "rel" "default" o).
+Proof. exact stamp_example. Qed.
+Print Assumptions C07_stamp_example.
+
+Example C07_stamped_then_recognised_example :
+  let cm := mkRes "ConfigMap" "a" [("d:k", "v"); ("l:tier", "web"); (managed_by_key, "kustomize");
+                                    (rel_name_key, "old"); (rel_ns_key, "")] in
+  let fl := mkFlags false false false false 0 false false false false 0 in
+  let w1 := fst (fst (run_store_op "rel" "default" (mkOp (OpInstall fl 1 1 [cm] []) (mkSF None None) (mkCF None None false)) (mkW [] []))) in
+  aget "ConfigMap/a" (w_objs w1) =
+    Some [("d:k", "v"); ("l:tier", "web"); (managed_by_key, "Helm"); (rel_name_key, "rel"); (rel_ns_key, "default")] /\
+  snd (fst (run_store_op "other" "default" (mkOp (OpInstall fl 1 1 [cm] []) (mkSF None None) (mkCF None None false)) (mkW [] (w_objs w1)))) = OErr EConflict /\
+  snd (fst (run_store_op "rel" "elsewhere" (mkOp (OpInstall fl 1 1 [cm] []) (mkSF None None) (mkCF None None false)) (mkW [] (w_objs w1)))) = OErr EConflict /\
+  snd (fst (run_store_op "rel" "default" (mkOp (OpUpgrade fl 2 1 [cm] []) (mkSF None None) (mkCF None None false)) w1)) = OOk.
+Proof. exact stamped_then_recognised. Qed.
+Print Assumptions C07_stamped_then_recognised_example.
 
 (* ---- deletes are confined to the release ---- *)
 
